@@ -286,6 +286,11 @@ def classify_c06(rec):
         if "UNION ALL" in sql and "same number of result columns" in txt and union_pruned(sql, lab.startswith("let2-append")):
             return "F28-append-prune"
     if rec["tag"] == "rows" and rec["verdict"] == "rows":
+        if "RIGHT OUTER JOIN" in sql and "UNION ALL" in sql and re.search(r"\) SELECT [^()]* FROM table_\d+ WHERE ", sql):
+            # SQLite (3.40 and 3.49 alike) pushes the outer WHERE into the operands of the compound sub-query and evaluates it
+            # before the RIGHT JOIN's null-extension: rows with a NULL in the filtered column survive `WHERE x > 0`.
+            # The emitted SQL is right; the engine is not.
+            return "oracle-sqlite-right-join-pushdown"
         if re.search(r"(?m)^take [^\n]*\nsort [^\n]*\ntake [^\n]*\n(?:group|aggregate)", prql) and len(re.findall(r"\bLIMIT\b", sql)) <= 1:
             return "F70-take-sort-take-merged"
         if has_let and re.search(r"\bsort\b", prql) and _OVER_NO_ORDER.search(sql):
@@ -514,6 +519,7 @@ def run():
     ck.assumptions += [
         "base programs: vplib/rel/prog.py generator (1..6 transforms + final select) over tables t(id,a,b,c,g), u(id,a,d,g); instances: integers and NULL in {NULL,-1,0,1,2,3}, 0..6 rows, ids unique, insertion order shuffled",
         "generic-dialect SQL is executed on SQLite",
+        "SQLite engine defect worked around (skipped and counted as oracle-sqlite-right-join-pushdown): an outer WHERE over a UNION ALL sub-query whose operands are RIGHT JOINs lets null-extended rows through (reproduced on SQLite 3.40.1 and the bundled 3.49)",
         "a pair where BOTH sides fail to compile/execute has no result to compare and is counted (both-fail), not judged: the base's failure is C01's / C07's subject",
         "let/into rewrites are applied only where the continuation has no qualified reference to the renamed relation (t.x / u.x) and the named frame has no duplicate column names; `select` of the full frame only on frames of distinct unqualified names",
         "function-call sites: expression slots of filter / derive / select / sort in the main pipeline; aggregate and window arguments and join conditions are not abstracted",
